@@ -172,7 +172,7 @@ Fixed(b) ==
 
 \* b holds exactly one message (Len(b) = total length): [ok, m]
 NoMsg == [ok |-> FALSE, m |-> <<>>]
-MessageDec(b, nfds) ==
+MessageDecX(b, nfds, strict) ==
   IF Len(b) < 16 THEN NoMsg
   ELSE LET fx == Fixed(b) IN
   IF ~fx.ok \/ fx.total # Len(b) THEN NoMsg
@@ -181,7 +181,7 @@ MessageDec(b, nfds) ==
   ELSE LET fr == DecVal(b, hend, HdrSig, 1, 12, le, 0) IN
   IF ~fr.ok \/ fr.p # hend \/ ~ZeroPad(b, hend, hl - hend) THEN NoMsg
   ELSE LET fs == fr.v.v IN
-  IF ~(\A k \in 1..Len(fs) : FieldOk(fs[k])) \/ ~NoDupFields(fs) \/ ~Mandatory(ty, fs) THEN NoMsg
+  IF ~(\A k \in 1..Len(fs) : FieldOk(fs[k])) \/ ~NoDupFields(fs) \/ (strict /\ ~Mandatory(ty, fs)) THEN NoMsg
   ELSE LET sig == FieldVal(fs, F_SIG, <<>>)
            body == BodyDec(Slice(b, hl, fx.blen), sig, le)
            fdsv == FieldVal(fs, F_FDS, <<0,0,0,0>>) IN
@@ -191,8 +191,11 @@ MessageDec(b, nfds) ==
         m |-> [ty |-> ty, fl |-> B(b, 2) % 8, ser |-> LE(b, 8, 4, le), rs |-> FieldVal(fs, F_RS, <<0,0,0,0>>),
                path |-> FieldVal(fs, F_PATH, <<>>), ifc |-> FieldVal(fs, F_IFC, <<>>), mem |-> FieldVal(fs, F_MEM, <<>>),
                err |-> FieldVal(fs, F_ERR, <<>>), dst |-> FieldVal(fs, F_DST, <<>>), snd |-> FieldVal(fs, F_SND, <<>>),
-               ci |-> FieldVal(fs, F_CI, <<>>), sig |-> sig, body |-> body.v]]
+               ci |-> FieldVal(fs, F_CI, <<>>), sig |-> sig, body |-> body.v],
+        unk |-> SelectSeq([k \in 1..Len(fs) |-> FieldCode(fs[k])], LAMBDA c : c > 10),
+        mandatory |-> Mandatory(ty, fs)]
 
+MessageDec(b, nfds) == LET d == MessageDecX(b, nfds, TRUE) IN [ok |-> d.ok, m |-> d.m]
 MessageValid(b, nfds) == MessageDec(b, nfds).ok
 
 \* ------------------------------------------------------------------ framing of a stream
